@@ -20,7 +20,7 @@ import (
 	"github.com/henrylee2cn/erpc/v6/socket"
 )
 
-const settleTimeout = 8 * time.Second
+const settleTimeout = 4 * time.Second
 
 // cutConn is the client's connection; when armed, the next Write passes cutAfter bytes on,
 // closes the connection and fails (a cut at that byte offset of the request).
@@ -106,7 +106,9 @@ type world struct {
 func newWorld() *world {
 	w := &world{closed: make(chan struct{})}
 	w.P = erpc.NewPeer(erpc.PeerConfig{}, replyPlugin{})
-	c, s := TCPPair()
+	// an in-memory connection: a write after the peer has gone fails at once and always
+	// (over TCP the first such write may still be buffered)
+	c, s := ScriptPipe("c:1", "s:1")
 	w.cc = &cutConn{Conn: c, cutAfter: -1}
 	w.sc = s
 	w.raw = NewRawPeer(s)
@@ -121,9 +123,19 @@ func (w *world) destroy() {
 	w.g.Uninstall()
 	w.sc.Close()
 	w.cc.Conn.Close()
-	w.drainWG.Wait()
-	w.sess.Close()
-	w.P.Close()
+	// a Close() that hangs is a finding of the run (reported by the oracles); it must not hang
+	// the harness: the teardown is bounded
+	fin := make(chan struct{})
+	go func() {
+		w.drainWG.Wait()
+		w.sess.Close()
+		w.P.Close()
+		close(fin)
+	}()
+	select {
+	case <-fin:
+	case <-time.After(2 * time.Second):
+	}
 }
 
 func (w *world) readerClass() string { return w.readerClassIn(GoroutineDump()) }
@@ -139,7 +151,7 @@ func (w *world) readerClassIn(d []string) string {
 	if CountIn(d, "readDisconnected") == 0 && CountIn(d, "bindReply", "sync.(*Mutex).Lock") > 0 {
 		return "lockwait"
 	}
-	if CountIn(d, "startReadAndHandle", "ReadMessage", "IO wait") > 0 {
+	if CountIn(d, "startReadAndHandle", "ReadMessage", "IO wait") > 0 || CountIn(d, "startReadAndHandle", "ReadMessage", "ScriptConn).Read") > 0 {
 		return "reading"
 	}
 	return "other"
@@ -223,7 +235,7 @@ func (w *world) settle() (string, bool) {
 				notReturned++
 			}
 		}
-		if notReturned != w.g.Parked("call.stored", w.sess) {
+		if notReturned != w.g.Parked("call.stored", w.sess)+w.g.Parked("write.done", w.sess) {
 			return false
 		}
 		// reply handlers: none running except those parked at reply.predone
@@ -282,7 +294,7 @@ func runCase(cfg *RunCfg, st *Stats, idx int, script []string) (string, string) 
 	var ins, outs []string
 	human := strings.Join(script, " ")
 	// every history ends with all gates open and the connection lost
-	script = append(append([]string{}, script...), "disarm:caller", "disarm:reply", "lost")
+	script = append(append([]string{}, script...), "disarm:caller", "disarm:callerw", "disarm:reply", "lost")
 	var final string
 	for _, ev := range script {
 		f := strings.Split(ev, ":")
@@ -307,7 +319,7 @@ func runCase(cfg *RunCfg, st *Stats, idx int, script []string) (string, string) 
 			if f[0] == "issuecut" {
 				// the write (if the status check admits it) is cut; the reader then fails
 				WaitUntil(settleTimeout, func() bool {
-					return atomic.LoadInt32(&c.returned) == 1 || w.g.Parked("call.stored", w.sess) > 0
+					return atomic.LoadInt32(&c.returned) == 1 || w.g.Parked("call.stored", w.sess) > 0 || w.g.Parked("write.done", w.sess) > 0
 				})
 				if atomic.LoadInt32(&w.cc.cutAfter) < 0 { // the cut happened
 					if !w.lost {
@@ -371,6 +383,8 @@ func runCase(cfg *RunCfg, st *Stats, idx int, script []string) (string, string) 
 		case "arm":
 			if f[1] == "caller" {
 				w.g.Arm("call.stored", w.sess)
+			} else if f[1] == "callerw" {
+				w.g.Arm("write.done", w.sess)
 			} else {
 				w.g.Arm("reply.predone", w.sess)
 			}
@@ -378,18 +392,21 @@ func runCase(cfg *RunCfg, st *Stats, idx int, script []string) (string, string) 
 		case "disarm":
 			if f[1] == "caller" {
 				w.g.Disarm("call.stored", w.sess)
+			} else if f[1] == "callerw" {
+				w.g.Disarm("write.done", w.sess)
 			} else {
 				w.g.Disarm("reply.predone", w.sess)
 			}
 			in = VL(VS("disarm"), VS(f[1]))
 		}
 		obs, ok := w.settle()
-		if !ok {
-			st.Fail(idx, "quiescence", "no quiescent state within the watchdog after "+ev, human)
-		}
 		ins = append(ins, in)
 		outs = append(outs, obs)
 		final = obs
+		if !ok {
+			st.Fail(idx, "quiescence", "no quiescent state within the watchdog after "+ev, human)
+			break // one watchdog per case
+		}
 	}
 	// the property, applied to what the implementation did
 	for i, c := range w.calls {
@@ -403,6 +420,7 @@ func runCase(cfg *RunCfg, st *Stats, idx int, script []string) (string, string) 
 		case <-cmd.Done():
 		default:
 			st.Fail(idx, "hang", fmt.Sprintf("call %d not completed after the connection was lost (final %s)", i, final), human)
+			continue
 		}
 		if n := len(c.ch); n != 1 {
 			st.Fail(idx, "once", fmt.Sprintf("call %d delivered %d times on its completion channel", i, n), human)
@@ -467,9 +485,28 @@ func genScript(cfg *RunCfg, st *Stats) []string {
 		case k < 78:
 			s = append(s, fmt.Sprintf("lostpartial:%d:%d", r.Intn(issued), 1+r.Intn(30)))
 			st.Count("ev:cut-reply-offset")
-		case k < 84:
+		case k < 82:
 			s = append(s, "close")
 			st.Count("ev:close")
+		case k < 86 && !armC:
+			// a caller parked after its write (gate write.done sits inside the session write
+			// lock, so no other call is issued until it is released)
+			s = append(s, "arm:callerw", "issue")
+			issued++
+			for j := r.Intn(3); j > 0; j-- {
+				switch r.Intn(4) {
+				case 0:
+					s = append(s, "lost")
+				case 1:
+					s = append(s, fmt.Sprintf("reply:%d:%s", issued-1, replyClasses[r.Intn(len(replyClasses))]))
+				case 2:
+					s = append(s, "close")
+				default:
+					s = append(s, fmt.Sprintf("bad:%d", r.Intn(3)))
+				}
+			}
+			s = append(s, "disarm:callerw")
+			st.Count("ev:gate-caller-after-write")
 		case k < 92:
 			if armC {
 				s = append(s, "disarm:caller")
@@ -495,7 +532,7 @@ func main() {
 	cfg := ParseFlags()
 	Quiet()
 	st := NewStats("C02", cfg)
-	st.Rule = "histories of 3..13 events over {issue, issue with the request cut at byte offset k, reply of class ok/remote-status/undecodable(codec set)/undecodable(codec 0)/hook-refused/decode-panic, duplicate reply, unknown seq, malformed bytes, connection lost, reply stream cut at byte offset k, local Close, gates parking callers before return / reply handlers before done}; every history ends with the connection lost; thorough tier adds every cut offset of one request and one reply frame; distinct by script; non-trivial = at least one call and one reply or loss event"
+	st.Rule = "histories of 3..13 events over {issue, issue with the request cut at byte offset k, reply of class ok/remote-status/undecodable(codec set)/undecodable(codec 0)/hook-refused/decode-panic, duplicate reply, unknown seq, malformed bytes, connection lost, reply stream cut at byte offset k, local Close, gates parking callers inside AsyncCall before the write (call.stored) and after it (write.done) / reply handlers before done}; every history ends with the connection lost; thorough tier adds every cut offset of one request and one reply frame; distinct by script; non-trivial = at least one call and one reply or loss event"
 	cw := NewCaseWriter(cfg)
 	distinct := DistinctSet{}
 	var scripts [][]string
@@ -507,6 +544,10 @@ func main() {
 		[]string{"arm:caller", "issue", "reply:0:ok", "disarm:caller"},
 		[]string{"issue", "close", "reply:0:ok"},
 		[]string{"issue", "close", "lost"},
+		[]string{"issue", "issue", "close", "lost"},
+		[]string{"arm:callerw", "issue", "lost", "disarm:callerw"},
+		[]string{"issue", "arm:callerw", "issue", "lost", "disarm:callerw"},
+		[]string{"arm:callerw", "issue", "close", "lost", "disarm:callerw"},
 	)
 	nOff := 8
 	if cfg.Tier == "thorough" {
